@@ -123,6 +123,8 @@ struct Cfg3 {
     skip_name: bool,
     skip_producers: bool,
     dwarf: bool,
+    /// `preserve_code_transform`: must change nothing this suite looks at
+    preserve: bool,
 }
 
 fn mk_config(c: &Cfg3, counter: Option<Arc<AtomicUsize>>) -> ModuleConfig {
@@ -130,6 +132,7 @@ fn mk_config(c: &Cfg3, counter: Option<Arc<AtomicUsize>>) -> ModuleConfig {
     cfg.generate_name_section(!c.skip_name);
     cfg.generate_producers_section(!c.skip_producers);
     cfg.generate_dwarf(c.dwarf);
+    cfg.preserve_code_transform(c.preserve);
     if let Some(counter) = counter {
         cfg.on_parse(move |_, _| {
             counter.fetch_add(1, Ordering::SeqCst);
@@ -164,7 +167,7 @@ fn run_case(case: &str, wasm: &[u8], c3: &Cfg3, script: &str, ver: &str, with_co
     let counter = Arc::new(AtomicUsize::new(0));
     let cfg = mk_config(c3, Some(counter.clone()));
     let parsed = out::catch(|| cfg.parse(wasm));
-    let wasm_hex_only = format!("{} {}{}{}{} {}", script, c3.skip_name as u8, c3.skip_producers as u8, c3.dwarf as u8, !with_corr as u8, hex(wasm));
+    let wasm_hex_only = format!("{} {}{}{}{}{} {}", script, c3.skip_name as u8, c3.skip_producers as u8, c3.dwarf as u8, !with_corr as u8, c3.preserve as u8, hex(wasm));
     // inputs outside the slice the model of this suite describes (full name sections) are judged by
     // the oracles only
     let corr = |case: &str, nontrivial: bool, req: &str, observed: &str| {
@@ -328,6 +331,7 @@ fn run_case(case: &str, wasm: &[u8], c3: &Cfg3, script: &str, ver: &str, with_co
                 skip_name: if which == "name" { !c3.skip_name } else { c3.skip_name },
                 skip_producers: if which == "producers" { !c3.skip_producers } else { c3.skip_producers },
                 dwarf: c3.dwarf,
+                preserve: c3.preserve,
             };
             let cfgf = mk_config(&flipped, None);
             if let Ok(Ok(mut mf)) = out::catch(|| cfgf.parse(wasm)) {
@@ -519,7 +523,7 @@ pub fn main(seed: u64, tier: &str, only: Option<&str>) {
         // `<script> <bits> <wasmhex>`
         let f: Vec<&str> = o.split(' ').collect();
         let bits: Vec<char> = f[1].chars().collect();
-        let c3 = Cfg3 { skip_name: bits[0] == '1', skip_producers: bits[1] == '1', dwarf: bits[2] == '1' };
+        let c3 = Cfg3 { skip_name: bits[0] == '1', skip_producers: bits[1] == '1', dwarf: bits[2] == '1', preserve: bits.get(4) == Some(&'1') };
         run_case("replay", &out::unhex(f[2]), &c3, f[0], &ver, bits.get(3) != Some(&'1'), &mut stats);
         return;
     }
@@ -538,7 +542,7 @@ pub fn main(seed: u64, tier: &str, only: Option<&str>) {
         g.big_offsets = false;
         g.extern_elem_global = false;
         g.max_funcs = 4;
-        let c3 = Cfg3 { skip_name: rng.chance(1, 2), skip_producers: rng.chance(1, 2), dwarf: rng.chance(1, 3) };
+        let mut c3 = Cfg3 { skip_name: rng.chance(1, 2), skip_producers: rng.chance(1, 2), dwarf: rng.chance(1, 3), preserve: false };
         g.junk_debug = !c3.dwarf;
         let (mut wasm, _) = gen::gen_valid(&mut rng, &g);
         // every sixth input has no local function at all (imports, a memory, data)
@@ -561,7 +565,8 @@ pub fn main(seed: u64, tier: &str, only: Option<&str>) {
             }
         }
         let script = *rng.pick(&scripts);
-        nconfigs.insert((c3.skip_name, c3.skip_producers, c3.dwarf, script));
+        c3.preserve = rng.chance(1, 2);
+        nconfigs.insert((c3.skip_name, c3.skip_producers, c3.dwarf, c3.preserve, script));
         run_case(&format!("s{}", case), &wasm, &c3, script, &ver, true, &mut stats);
     }
     // C08 also over what this suite's model does not describe: full name sections (function, local,
@@ -580,7 +585,7 @@ pub fn main(seed: u64, tier: &str, only: Option<&str>) {
             g.extern_elem_global = false;
             g.max_funcs = 12;
             g.junk_debug = false;
-            let c3 = Cfg3 { skip_name: rng.chance(1, 8), skip_producers: rng.chance(1, 2), dwarf: false };
+            let c3 = Cfg3 { skip_name: rng.chance(1, 8), skip_producers: rng.chance(1, 2), dwarf: false, preserve: rng.chance(1, 4) };
             let (wasm, _) = gen::gen_valid(&mut rng, &g);
             let script = *rng.pick(&["e", "ee", "ege"]);
             run_case(&format!("x{}", case), &wasm, &c3, script, &ver, false, &mut stats);
